@@ -4,7 +4,7 @@
    value under a writer that fails after k bytes for EVERY k, write_to_slice into EVERY slice length (with
    canaries), read_limited under EVERY limit.  Expected outcomes come from Wire.tla (header length, content
    rules) and from the IoFault machines (prefix / fault surfaces / never overpulls). *)
-EXTENDS Wire, IoFault, Json, IOUtils, TLC
+EXTENDS Decoder, IoFault, Json, IOUtils
 
 CONSTANT KnownDev
 Rec == ndJsonDeserialize(IOEnv.TRACE)
@@ -27,8 +27,21 @@ FullLen(k, b) == IF Len(b) >= Fix(k) /\ CF(k, b) = {} THEN HdrLen(k, b) ELSE Fix
 SliceOk(k, b) == Len(b) >= Fix(k) /\ CF(k, b) = {} /\ Len(b) >= HdrLen(k, b)
 Canon(k, b) == Enc(k, Dec(k, Take(b, HdrLen(k, b))))      \* the value's encoding (reserved bits cleared)
 
+\* IP header + extension headers ("iph", multi-part): verdict and total header length from the reference decoder (struct family)
+IphRun(b) == Final(b, "strict", "struct", "ip", -1, "ip")
+IphSliceMism(e) == LET r == IphRun(e.bytes) IN
+  IF r.v = "ok" THEN (IF e.slice.k # "ok" THEN {"slice.rejected:" \o e.slice.k} ELSE IF e.slice.used # r.pay.off THEN {"slice.consumed"} ELSE {})
+  ELSE (IF e.slice.k = "ok" THEN {"slice.accepted"} ELSE {})
+IphReadMism(e) == LET r == IphRun(e.bytes) IN
+  UNION {LET x == e.reads[i]  okHere == r.v = "ok" /\ x[1] >= r.pay.off IN
+         IF okHere THEN (IF x[2] # "ok" THEN {"read.rejected_what_slice_accepts:" \o x[2]}
+                         ELSE (IF x[3] # r.pay.off THEN {"read.consumed"} ELSE {}) \cup (IF x[4] # 1 THEN {"read.value_differs_from_slice"} ELSE {}))
+         ELSE (IF x[2] = "ok" THEN (IF r.v = "ok" THEN {"read.success_despite_fault"} ELSE {"read.accepted_what_slice_rejects"}) ELSE {})
+         : i \in 1..Len(e.reads)}
+
 SliceMism(e) ==
   LET k == e.type  b == e.bytes IN
+  IF k = "iph" THEN IphSliceMism(e) ELSE
   IF SliceOk(k, b)
   THEN (IF e.slice.k # "ok" THEN {"slice.rejected:" \o e.slice.k}
         ELSE (IF e.slice.used # HdrLen(k, b) THEN {"slice.consumed"} ELSE {}) \* (typed ICMP values normalise unused header bytes: their field fidelity belongs to Ctl.tla / C17)
@@ -37,6 +50,7 @@ SliceMism(e) ==
 
 ReadMism(e) ==
   LET k == e.type  b == e.bytes IN
+  IF k = "iph" THEN IphReadMism(e) ELSE
   UNION {LET r == e.reads[i]  n == r[1]  kind == r[2]
              okHere == SliceOk(k, b) /\ n >= HdrLen(k, b) IN
          IF okHere
